@@ -67,6 +67,10 @@ var c07subjects = []c07subject{
 const c07nDirected = 12 * 3 * 2
 
 func c07directedCase(c *fw.Ctx, idx int) bool {
+	if idx >= c07nDirected {
+		rebindCase(c, idx-c07nDirected, "C07")
+		return true
+	}
 	sub := c07subjects[idx%len(c07subjects)]
 	what := []string{"key", "value", "dot"}[idx/len(c07subjects)%3]
 	iter := 1 + idx/len(c07subjects)/3%2
@@ -122,6 +126,6 @@ func between(s, a, b string) string {
 }
 
 func init() {
-	c07.nDirected = c07nDirected
+	c07.nDirected = c07nDirected + nRebind
 	c07.directed = c07directedCase
 }
